@@ -153,10 +153,12 @@ func (ww *conversionVisitor) visitServiceMethodNode(service *serviceBuilder, nod
 
 	if method.Options != nil {
 		proto.SetExtension(methodBuilder.desc.Options, ext_j5pb.E_Method, method.Options)
+		ww.file.ensureImport(j5ExtImport)
 	}
 
 	if method.ListRequest != nil {
 		proto.SetExtension(methodBuilder.desc.Options, list_j5pb.E_ListRequest, method.ListRequest)
+		ww.file.ensureImport(j5ListAnnotationsImport)
 	}
 	service.desc.Method = append(service.desc.Method, methodBuilder.desc)
 }
